@@ -1,6 +1,7 @@
 package xmp
 
 import (
+	"math"
 	"time"
 
 	"github.com/evanoberholster/imagemeta/meta"
@@ -20,7 +21,9 @@ func (basic *Basic) parse(p property) (err error) {
 	case xmpns.ModifyDate:
 		basic.ModifyDate, err = parseDate(p.Value())
 	case xmpns.Rating:
-		basic.Rating = int8(parseUint8(p.Value()))
+		if r := parseInt(p.Value()); r >= -1 && r <= math.MaxInt8 {
+			basic.Rating = int8(r)
+		}
 	default:
 		return ErrPropertyNotSet
 	}
